@@ -214,24 +214,39 @@ def chosen_case(arg):
     from fractopo.tval import trace_validators as tv
     from fractopo.tval.trace_validation import Validation
 
-    chosen = tuple(getattr(tv, n) for n in names)
+    chosen = tuple(getattr(tv, n) for n in names) if names else None
     f = frame(i)
+    # observe the object's node cache: every call of determine_general_nodes (which fills it) with the kinds of geometry in the frame it is given
+    import fractopo.tval.trace_validation as tvmod
+
+    calls = []
+    real_dgn = tvmod.determine_general_nodes
+
+    def spy(traces_):
+        calls.append(sorted({g.geom_type for g in traces_.geometry.values if g is not None}))
+        return real_dgn(traces_)
+
+    tvmod.determine_general_nodes = spy
     try:
         v = Validation(f, area_for(f), "c", True, SNAP_THRESHOLD=T)
         out = v.run_validation(choose_validators=chosen)
+        first_calls = list(calls)
         again = Validation(out.copy(), area_for(f), "c2", True, SNAP_THRESHOLD=T).run_validation(choose_validators=chosen)
         rerun = v.run_validation(choose_validators=chosen)
-        return canon(out), canon(again), canon(rerun)
+        return canon(out), canon(again), canon(rerun), first_calls
     except Exception as e:
         return f"{type(e).__name__}: {str(e)[:160]}"
+    finally:
+        tvmod.determine_general_nodes = real_dgn
 
 
 def s13_chosen(ctx):
     """idempotence with CHOSEN validators: a subset that contains the fixing validator and a validator that needs node sets makes the first pass fill the object's caches"""
-    res = StreamResult("S13-chosen", rule="every frame of the pool x 5 chosen validator subsets (the fixing GeomTypeValidator together with node / snap validators; node validators alone), "
+    res = StreamResult("S13-chosen", rule="every frame of the pool x 5 chosen validator subsets (the fixing GeomTypeValidator together with node / snap validators; node validators alone) and the default, "
                        "allow_fix: validate, validate the OUTPUT again with the same subset, re-run the first object -- all three must report the same errors and geometries "
-                       "(exhaustive over pool x subsets, each case in a fresh process); non-trivial = the first result has an error")
-    args = [(i, names) for i in range(len(POOL)) for _, names in CHOSEN]
+                       "(exhaustive over pool x subsets, each case in a fresh process); the fills of the object's node cache are observed and compared with the regenerated cache model "
+                       "(once per pass needing nodes, the second time from the fixed frame); non-trivial = the first result has an error")
+    args = [(i, names) for i in range(len(POOL)) for _, names in CHOSEN + [("default", [])]]
     with mp.get_context("fork").Pool(16, maxtasksperchild=1) as pool:
         outs = pool.map(chosen_case, args, chunksize=1)
     for (i, names), o in zip(args, outs):
@@ -240,9 +255,22 @@ def s13_chosen(ctx):
         if isinstance(o, str):
             res.disagreements.append(Disagreement("S13-chosen", case, "completes", o, True, "validation with chosen validators raised"))
             continue
-        first, again, rerun = o
+        first, again, rerun, node_calls = o
         if any(e for e, _ in first):
             res.nontrivial += 1
+        # the cache model (item ValidationCaches, theorems C13_node_caches_follow_the_fixed_frame / C02_node_sets_from_fixed_traces) against the real object: the node
+        # tuples are determined once per pass whose validators need nodes (Gen.val_flag) -- in the first pass from the frame as given, in the second from the FIXED
+        # frame, which holds no multi-part line that could be merged
+        needs = {"MultiJunctionValidator", "VNodeValidator"}
+        f1 = bool(names) and any(n in needs for n in names)
+        f2 = any(n in needs for n in names) if names else True
+        n_rows = len(first)
+        want_calls = (1 if f1 and n_rows else 0) + (1 if f2 and n_rows else 0)
+        fixed_kinds = sorted({g.split(" ")[0].capitalize().replace("string", "String") for _, g in first if g})
+        if len(node_calls) != want_calls or (node_calls and f2 and "MultiLineString" in node_calls[-1] and "MULTILINESTRING" not in {g.split(" ")[0] for _, g in first if g}):
+            res.disagreements.append(Disagreement("S13-chosen", dict(case, observed="node cache"), {"fills": want_calls, "last_fill_from": "the fixed frame"}, node_calls, None,
+                                                  f"the object's node cache is not filled as the regenerated cache model says (per pass needing nodes, the second time from the fixed frame): {node_calls}"))
+            continue
         if again != first:
             res.disagreements.append(Disagreement("S13-chosen", case, first, again, True,
                                                   f"validating the validated output again (validators {names}) reports other errors than the first validation of frame {POOL[i][0]!r}"))
@@ -261,7 +289,7 @@ def replay(ctx, stream, case):
             o = pool.map(chosen_case, [(case["frame_index"], case["validators"])], chunksize=1)[0]
         if isinstance(o, str):
             return Disagreement(stream, case, "completes", o, True, "raised")
-        first, again, rerun = o
+        first, again, rerun = o[:3]
         return None if (again == first and rerun == first) else Disagreement(stream, case, first, again if again != first else rerun, True, "re-validation with chosen validators differs")
     if stream == "S13-generated":
         r = s13_generated(ctx)
